@@ -96,6 +96,25 @@ func FieldPtr(obj any, field string) uintptr {
 	return f.Pointer()
 }
 
+// FieldAddr returns the address of a (value) field of a struct, 0 if there is no such field.
+func FieldAddr(obj any, field string) uintptr {
+	v := reflect.ValueOf(obj)
+	for v.Kind() == reflect.Ptr || v.Kind() == reflect.Interface {
+		if v.IsNil() {
+			return 0
+		}
+		v = v.Elem()
+	}
+	if v.Kind() != reflect.Struct || !v.CanAddr() {
+		return 0
+	}
+	f := v.FieldByName(field)
+	if !f.IsValid() {
+		return 0
+	}
+	return f.UnsafeAddr()
+}
+
 // NewInst creates an instance wrapper; gates lists hook points that block until released.
 func NewInst(gates ...string) *Inst {
 	install()
